@@ -49,6 +49,16 @@ CHECKS = {
  "C15": dict(level="exploration", ref="4 C15",
    text="Model-based testing of the speculative register state of risc.Context (transaction map and rename table, reads through a real instruction so that registerRead is exercised) and of comp.RAT against a ring model, including bounded-exhaustive enumeration of RAT histories up to length 5/6; out-of-order tag arrival is the recorded finding F14 (unit-level face of F03) and is excluded from the value claims only.",
    note="Trusted: the per-register write-list model and the ring model in c15_test.go.", technique="model-based testing: rapid histories + bounded-exhaustive enumeration against reference models"),
+
+ "C06": dict(level="exploration", ref="4 C06",
+   text="Invariant monitoring: (1) random load/store programs on MVP-7.0/7.1/8 x 1..4 cores with the five MSI invariants checked on a snapshot of every L1, the directory, the lock counters, the snoop commands and the L3 at every loop iteration of Run; (2) the same monitor on a pipeline-less rig of cache controllers + directory driven by random schedules and by a bounded-exhaustive enumeration of every schedule of up to 3 (quick) / 4 (thorough) requests from 2-3 cores on 1-2 lines, each with a flush of one or all cores at 15 critical cycles. The rig enumeration is complete within its bound; beyond it the claim is exploration.",
+   note="Trusted: the snapshot hook (build tag verif, copies references only), the monitor's reading of 'transfer in progress', the rig stepping order copied from CPU.Run.", technique="invariant monitor over per-cycle snapshots: rapid programs + rapid and bounded-exhaustive request schedules on a controller rig"),
+ "C08": dict(level="exploration", ref="4 C08",
+   text="Metamorphic relations against the first run of a fresh machine: in-process repetition, runs after unrelated machines, concurrent machines in goroutines, re-use of a parsed program on the same and on another configuration, and a child process; outcome class, cycles, registers and memory must be identical. Go map-iteration orders and goroutine interleavings are sampled by repetition, not enumerated: exploration.",
+   note="Trusted: sha256 digests of (class, cycles, registers, memory). No result-level exclusions: determinism is judged on wrong results too.", technique="rapid generation + metamorphic repetition/isolation relations (in-process, concurrent, re-used program, child process)"),
+ "C12": dict(level="exploration", ref="4 C12",
+   text="MVP-1's cycle count against the analytic latency model evaluated on the reference trace (exact equality), MVP-2 <= MVP-1, positivity and the issue-width lower bound on all configurations (on runs whose result equals the reference), and value-independence: two initial states differing only in data registers, with reference-certified identical paths and addresses, must take the same number of cycles on every configuration.",
+   note="Trusted: the latency formula in c12_test.go (constants are read from common/latency and InstructionType.Cycles(), so a changed constant moves both sides; TestBenchmarks pins them), the control/data partition of the value-independence generator (certified per case by comparing the two reference traces).", technique="rapid generation + analytic cycle model on the reference trace + metamorphic value-independence relation"),
 }
 ALL = ["C%02d"%i for i in range(1,17)]
 m = {
